@@ -162,6 +162,20 @@ def arbitrary_cases(draw, nums=("frac",)):
     return {"curve": c, "cleans": cleans}
 
 
+@st.composite
+def special_cases(draw):
+    Ulow, plow = draw(gen.knotvectors(0, 2, 2))
+    t = draw(st.integers(0, 1))
+    Uhigh = oracle.elevated_vector(Ulow, plow, t)
+    bk = gen.breaks_of(Ulow)
+    if draw(st.booleans()):
+        z = (bk[0] + bk[1]) / 2
+        Uhigh = sorted(Uhigh + [z])
+    c, kind = draw(gen.special_rational(Ulow, plow, Uhigh, plow + t))
+    cleans = draw(st.lists(st.sampled_from(["knot_clean", "degree_clean", "clean"]), min_size=1, max_size=3))
+    return {"curve": c, "cleans": cleans, "special": kind}
+
+
 def check_arbitrary(case, out):
     c = case["curve"]
     ref = lib.case_state(c)
@@ -176,7 +190,9 @@ def check_arbitrary(case, out):
     else:
         out.nontrivial = len(oracle.breaks(ref.U)) > 2
     out.cls(kind, "cleans=" + "+".join(case["cleans"]))
-    run_cleans(curve, ref, case["cleans"], out, "arbitrary;" + kind, minimal)
+    if case.get("special"):
+        out.cls("special=" + case["special"])
+    run_cleans(curve, ref, case["cleans"], out, "arbitrary;" + kind + (";" + case["special"] if case.get("special") else ""), minimal)
 
 
 def check_float(case, out):
@@ -211,4 +227,7 @@ FACETS = [
           rule="arbitrary curves (small value alphabet so that reducible ones occur): preserved, idempotent, minimal"),
     Facet("float", lambda tier: arbitrary_cases(("float",)), check_float, quick=120, thorough=2000,
           rule="float data: function preserved within the tolerance bound"),
+    Facet("rational-special", lambda tier: special_cases(), check_arbitrary, quick=160, thorough=2500,
+          rule="rational curves whose weight function alone / numerator alone / constant weights are reducible",
+          case_timeout=120),
 ]
